@@ -636,6 +636,9 @@ func (t *tr) call(ins ssa.Instruction, cc *ssa.CallCommon, R string, heaps map[s
 			t.assertsSeen[ac.Label] = true
 		}
 	}
+	if fs != nil && fs.Inline && callee != nil && t.inlineCall(ins, callee, args, R, heaps, xval, flat) {
+		return
+	}
 	if fs == nil {
 		if callee != nil && t.inlineCall(ins, callee, args, R, heaps, xval, flat) {
 			return
@@ -691,6 +694,8 @@ func (t *tr) call(ins ssa.Instruction, cc *ssa.CallCommon, R string, heaps map[s
 	}
 	env2.callerSide = true
 	env2.callerPtrs = append([]string{}, t.ptrs...)
+	env2.callerEpoch = t.epoch
+	t.epoch++ // whatever the callee allocates is newer than everything known here
 	isFresh := map[string]bool{}
 	for _, f := range fs.Fresh {
 		isFresh[f] = true
@@ -706,15 +711,9 @@ func (t *tr) call(ins ssa.Instruction, cc *ssa.CallCommon, R string, heaps map[s
 		}
 		if isFresh[rn] {
 			// a non-nil fresh result is distinct from every object known so far
-			var sb strings.Builder
-			for _, p := range t.ptrs {
-				fmt.Fprintf(&sb, " (distinct %s %s)", ref, p)
-			}
-			if sb.Len() > 0 {
-				t.assume(R, fmt.Sprintf("(=> (not (= %s 0)) (and%s))", ref, sb.String()))
-			}
+			t.assume(R, fmt.Sprintf("(=> (not (= %s 0)) (> (born %s) %d))", ref, ref, env2.callerEpoch))
 			t.assume(R, fmt.Sprintf("(=> (not (= %s 0)) (not (existed %s)))", ref, ref))
-			t.ptrs = append(t.ptrs, ref)
+			t.regPtr(ref)
 		} else {
 			// may alias an argument; distinct from local allocations that never escape and are not passed
 			for _, a := range t.allocs {
@@ -734,10 +733,13 @@ func (t *tr) call(ins ssa.Instruction, cc *ssa.CallCommon, R string, heaps map[s
 					t.assume(R, fmt.Sprintf("(distinct %s %s)", ref, a.ref))
 				}
 			}
-			t.ptrs = append(t.ptrs, ref)
+			t.regPtr(ref)
 		}
 	}
 	for _, e := range fs.Ensures {
+		if e.Local {
+			continue
+		}
 		term, err := t.evalAssume(e.Expr, env2, heaps, pre)
 		if err != nil {
 			t.fatalf("ensures %s of %s (%s): %v", e.Label, fs.Key, e.Where, err)
@@ -800,7 +802,7 @@ func (t *tr) unknownCall(name string, callee *ssa.Function, cc *ssa.CallCommon, 
 		for i, rs := range results {
 			if len(rs) == 1 {
 				if ref := refOf(leafSort(resTypes[i]), rs[0]); ref != "" {
-					t.ptrs = append(t.ptrs, ref)
+					t.regPtr(ref)
 				}
 			}
 		}
@@ -817,7 +819,7 @@ func (t *tr) unknownCall(name string, callee *ssa.Function, cc *ssa.CallCommon, 
 	for i, rs := range results {
 		if len(rs) == 1 {
 			if ref := refOf(leafSort(resTypes[i]), rs[0]); ref != "" {
-				t.ptrs = append(t.ptrs, ref)
+				t.regPtr(ref)
 			}
 		}
 	}
@@ -1069,6 +1071,7 @@ func (t *tr) inlineCall(ins ssa.Instruction, callee *ssa.Function, args [][]stri
 	ct.heapN, ct.heap0, ct.heapSorts = t.heapN, t.heap0, t.heapSorts
 	ct.nfresh = t.nfresh
 	ct.ptrs = append([]string{}, t.ptrs...)
+	ct.epoch = t.epoch
 	ct.entryReach = R
 	ct.entryHeapsInl = heaps
 	ct.unknownCallees, ct.trustedUsed, ct.contractsUsed, ct.abstracted = t.unknownCallees, t.trustedUsed, t.contractsUsed, t.abstracted
@@ -1091,6 +1094,7 @@ func (t *tr) inlineCall(ins ssa.Instruction, callee *ssa.Function, args [][]stri
 	t.decls.WriteString(ct.decls.String())
 	t.out.WriteString(ct.out.String())
 	t.ptrs = ct.ptrs
+	t.epoch = ct.epoch
 	t.allocs = append(t.allocs, ct.allocs...)
 	for a, e := range ct.escapes {
 		t.escapes[a] = e
